@@ -9,14 +9,15 @@ user's own) plus 1-3 operations, each with at most one injected fault:
     griffe.check(pkg, against=R | None, base_ref=B | None, search_paths=[srcdir], force_inspection=F, extensions=[E])   (cwd = repository)
 
     faults: unknown reference; package absent at R; syntax error at R; a user branch that already has the name of Griffe's
-    temporary branch; an extension that raises Exception / KeyboardInterrupt at its k-th hook call (k over all hook calls
+    temporary branch; a user worktree whose directory is named like Griffe's temporary checkout (normalize(ref)) or branch; the
+    repository being a clone in which the ref exists only as origin/<name>; an extension that raises Exception / KeyboardInterrupt at its k-th hook call (k over all hook calls
     counted in a fault-free dry run of the same operation); non-zero exit / OSError injected into the i-th `subprocess.run`
     of `_griffe.git` that precedes a worktree body (rev-parse, worktree add, tag -l).
 
 Oracle, after every operation (dry runs included), whatever it returned or raised:
   * repo-unchanged: snapshot before == after — rev-parse HEAD, symbolic-ref HEAD, all refs with their targets (branches,
     tags, stash), worktree list --porcelain, status --porcelain=v2 (untracked files listed), ls-files -s, stash list, SHA-1
-    and mode of every file in the working tree (and in the user's own linked worktree);
+    and mode of every file in the working tree (and in the user's own linked worktrees), `git config --local --list`;
   * no-temp-left: the case-private `tempfile.tempdir` holds no griffe-worktree-* entry;
   * objects-usable (load_git success only): for every module / class / function of the returned tree, `.source` — read after
     the checkout is gone — equals `git show R:<path>` sliced by the object's span (dedented), and is not empty. With
@@ -57,7 +58,8 @@ RULE = (
     "operations load_git / check with ref in {tag, branch, slashed branch, sha, short sha, HEAD, HEAD~1, main, unknown}, force_inspection, "
     "resolve_aliases, resolve_external in {None,True,False}, "
     "and at most one fault (extension raising Exception/KeyboardInterrupt at hook call k of N counted in a dry run; non-zero exit/OSError "
-    "at the i-th pre-body git subprocess; pre-existing griffe-<ref> branch). evaluations = operations executed and judged (dry runs "
+    "at the i-th pre-body git subprocess; pre-existing griffe-<ref> branch; user worktree directory named normalize(ref) / griffe-<normref>; "
+    "repository is a clone and the ref exists only as origin/<name>). evaluations = operations executed and judged (dry runs "
     "included). non-trivial operation = a fault was injected and reached, or the operation failed, or the working tree is dirty, or the "
     "ref contains a slash; distinct = distinct (history, operation, fault) triple"
 )
@@ -130,8 +132,11 @@ def snapshot(info) -> dict:
     refs = G.git(repo, "for-each-ref", "--format=%(refname) %(objectname)").splitlines()
     files: dict = {}
     _hash_tree(repo, files, "")
-    if info.get("user_worktree"):
-        _hash_tree(info["user_worktree"], files, "<user-worktree>/")
+    for n, uw in enumerate(info.get("user_worktrees", ())):
+        if uw.exists():
+            _hash_tree(uw, files, f"<user-worktree-{n}>/")
+        else:
+            files[f"<user-worktree-{n}>"] = "directory-missing"
     return {
         "HEAD": G.git(repo, "rev-parse", "HEAD").strip(),
         "symbolic-ref": G.git(repo, "symbolic-ref", "-q", "HEAD", check=False).strip(),
@@ -142,6 +147,7 @@ def snapshot(info) -> dict:
         "status": G.git(repo, "status", "--porcelain=v2", "--untracked-files=all").splitlines(),
         "index": G.git(repo, "ls-files", "-s").splitlines(),
         "stash": G.git(repo, "stash", "list").splitlines(),
+        "config": G.git(repo, "config", "--local", "--list").splitlines(),
         "files": files,
     }
 
@@ -566,6 +572,16 @@ def check_case(case) -> list[Fail]:
             if op.get("preexisting"):
                 pre = f"griffe-{ggit._normalize(plan['ref'])}"
                 G.git(info["repo"], "branch", pre, info["shas"][0], check=False)
+            if op.get("user_wt"):
+                # a linked worktree of the user's own whose directory is named like Griffe's temporary checkout / branch
+                normref = ggit._normalize(plan["ref"])
+                n = len(info["user_worktrees"])
+                uw = wd / f"uw{n}" / (normref if op["user_wt"] == "ref" else f"griffe-{normref}")
+                if normref:
+                    uw.parent.mkdir()
+                    G.git(info["repo"], "worktree", "add", "-q", "-b", f"user/wt{n}", str(uw), info["shas"][0])
+                    (uw / "user work in progress.txt").write_text("not committed\n")
+                    info["user_worktrees"].append(uw)
             runs = []
             ext_k = None
             sub_plan = None
@@ -609,6 +625,12 @@ def check_case(case) -> list[Fail]:
                     classes.append("ref-with-slash")
                 if op.get("preexisting"):
                     classes.append("preexisting-griffe-branch")
+                if op.get("user_wt"):
+                    classes.append(f"user-worktree-dir-named-like:{op['user_wt']}")
+                if info.get("clone"):
+                    classes.append(f"clone:{info['clone']}")
+                    if op["ref"][0] in ("branch", "slashed") and plan["ref_commit"] is None and plan["ref"] in info["branches"]:
+                        classes.append("clone:ref-exists-only-as-origin/<name>" + ("(slashed)" if "/" in plan["ref"] else ""))
                 if plan["ref_commit"] is not None:
                     classes.append("commit-state-at-ref:" + case["commits"][plan["ref_commit"]]["state"])
                 if "sfunc" in run.get("aliases_checked", ()):
